@@ -79,6 +79,7 @@ def unit_cases(pi, proj, res):
             core.coq_opt(text, core.coq_str))
         meta["stats"] = sc.tree_stats(u["tree"])
         meta["literals_not_selecting_their_text"] = bad_literals(u["tree"], u["strings"])[:5]
+        meta["nested_blocks_with_wrong_count"] = bad_blocks(u["tree"], len(u["strings"]), len(proj.locales))[:5]
         out.append((term, meta))
     return out
 
@@ -105,6 +106,19 @@ def bad_literals(tree, table, path=()):
             pv(e[1], path + (k,))
         else:
             out.extend(bad_literals(e[4], table, path + (k,)))
+    return out
+
+
+def bad_blocks(tree, n_table, nloc, path=()):
+    """nested subkey blocks whose expected string count is not the length of this locale's table, or that do not hold
+    one nested Locale per top locale (for the violation report)"""
+    out = []
+    for k, e in tree:
+        if e[0] == "N":
+            if e[1] != n_table or e[2] != nloc:
+                out.append({"block": ".".join(path + (k,)), "expects_strings": e[1] if e[1] < 2 ** 63 else "no nested Locale for this locale",
+                            "table_length": n_table, "nested_locales": e[2], "locales": nloc})
+            out.extend(bad_blocks(e[4], n_table, nloc, path + (k,)))
     return out
 
 
@@ -451,8 +465,14 @@ def run(ctx):
     ns_codes = core.coq_eval(ctx, "c11ns", PRE, ns_items, "check_ns", timeout=1200)
     ns_disagree = [m for m, c in zip(ns_metas, ns_codes) if c == 2]
     ns_unmodelled = sum(c == 1 for c in ns_codes)
-    rendered = rendered_text_probe(ctx, exe)
-    if not ctx.quick:
+    probe_build_failure = None
+    try:
+        rendered = rendered_text_probe(ctx, exe)
+    except core.HarnessBuildFailed as e:
+        # the generated crate does not compile: reported below unless the tables themselves already show why
+        probe_build_failure = e
+        rendered = {"accessors_rendered": 0, "mismatches": []}
+    if not ctx.quick and probe_build_failure is None:
         for _ in range(2):
             more = rendered_text_probe(ctx, exe)
             rendered = {"accessors_rendered": rendered["accessors_rendered"] + more["accessors_rendered"],
@@ -464,7 +484,8 @@ def run(ctx):
     if bad_spec:
         bad_spec.sort(key=lambda m: (sum(len(s) for s in m["impl_strings"]), len(m["impl_strings"])))
         first = bad_spec[0]
-        small = shrink(ctx, exe, first) or first
+        structural = first.get("literals_not_selecting_their_text") or first.get("nested_blocks_with_wrong_count")
+        small = first if structural else (shrink(ctx, exe, first) or first)     # a single text cannot reproduce those
         small = dict(small)
         small.pop("stats", None)
         small["explanation"] = (
@@ -482,6 +503,11 @@ def run(ctx):
         else:
             core.violation(ctx, "spec", {"failing_input": small, "count": len(bad_spec),
                                          "first_failing_unit": {k: v for k, v in first.items() if k != "stats"}})
+    elif probe_build_failure is not None:
+        core.violation(ctx, "harness_build", {
+            "broken": "the generated load_locales!() crate (dynamic_load + ssr) no longer compiles against /repo: "
+                      "the `[&str; N]` types of the generated code do not fit the baked tables, or the macro output changed",
+            "log_tail": probe_build_failure.log}, no_input=True)
     elif panics:
         core.violation(ctx, "panic", {"failing_input": panics[0], "explanation": "parse_locales / write_to_dir panicked"})
     elif rendered["mismatches"]:
